@@ -690,9 +690,13 @@ def fastpath_coherent(ctx):
                     early = [x for s_ in a.body for x in walk_local(s_) if isinstance(x, (ast.Break, ast.Return))]
                     ctx.check(not early and not a.orelse, a, "the eviction loop visits every entry (no break / return)",
                               "the eviction loop stops at the first match: further live functions with the same identifier stay validated against a source that is no longer stored")
-                    conds = [(unparse(t), pol) for (i2, t, pol) in g_.conditions_at(g_.nodes_of(n)) if in_block(i2, a.body)]
-                    ctx.check(len(conds) == 1 and "is not self.func" in conds[0][0] and "_build_func_identifier" in conds[0][0] and conds[0][1], n,
-                              "evicted: every other function with the same identifier", "eviction is conditioned on %s" % conds)
+                    from ..core import cond_facts
+                    facts = cond_facts([c_ for c_ in g_.conditions_at(g_.nodes_of(n)) if in_block(c_[0], a.body)])
+                    var = a.target.id if isinstance(a.target, ast.Name) else "?"
+                    same_id = [f for f in facts if f[1] and f[0] in ("_build_func_identifier(%s) == self.func_id" % var, "self.func_id == _build_func_identifier(%s)" % var)]
+                    rest = [f for f in facts if f not in same_id and f != ("%s is not self.func" % var, True) and f != ("%s is self.func" % var, False)]
+                    ctx.check(bool(same_id) and not rest, n, "evicted: every other function with the same identifier",
+                              "eviction is conditioned on %s, not on `same identifier (and not this function)`: namesakes validated against the replaced source stay on the fast path" % facts)
         for n in inv:
             # must be able to hit entries of *other* functions: clear(), or pop/del inside a loop over the table
             if isinstance(n, ast.Call) and call_name(n) == "_FUNCTION_HASHES.clear":
